@@ -131,10 +131,13 @@ RESTORE:
 				return fmt.Errorf("output key exist, none : %s", e.Key)
 			}
 		} else if strings.Contains(err.Error(), "Bad data format") { // cluster.c:restoreCommand
+			// the target cannot load this serialization (e.g. an encoding newer than the target):
+			// replay the entry by native commands, including the key-exists policy and the expiry
 			log.Warn(err, " try to restoreBigRdbEntry")
-			if err := restoreBigRdbEntry(rr.Client, e); err != nil {
-				return err
-			}
+			native := *rr
+			native.EnableRestore = false
+			native.ReplaceHashTag = false // already applied to e.Key
+			return native.Replay(e)
 		} else {
 			return fmt.Errorf("restore command error : key(%s), error(%w)", e.Key, err)
 		}
